@@ -117,6 +117,34 @@ def r1_writer_side(cx, classes):
     conds = sorted(conds)
     want = sorted([[("no_red", False)], [("set(no_obf) == DEFAULT_OBFUSCATIONS", False)], [("self._filterable", True)]])
     cx.require(conds == want, cc, "'nothing to clean' means: no_redact set, every obfuscation excluded and not filterable", construct="cleans.append conditions: %s" % conds)
+    # 'every obfuscation excluded' compares the datasource's list with the constant DEFAULT_OBFUSCATIONS: that constant must name EVERY stage the cleaner can
+    # install (keyword and password replacement included) - with a smaller set, excluding just those skips cleaning although other stages are configured
+    cm_ = cx.repo.module(CL)
+    dflt = cm_.top.get("DEFAULT_OBFUSCATIONS")
+    names = None
+    if isinstance(dflt, (ast.Set, ast.List, ast.Tuple)):
+        names = set(const_str(e) for e in dflt.elts)
+    elif isinstance(dflt, ast.Call) and call_name(dflt) in ("set", "frozenset") and dflt.args and isinstance(dflt.args[0], (ast.Set, ast.List, ast.Tuple)):
+        names = set(const_str(e) for e in dflt.args[0].elts)
+    init_ = cm_.func("Cleaner.__init__", "C08.R1")
+    installed = set()
+    for a_ in walk_body(init_.body):
+        if isinstance(a_, ast.Assign) and U(a_.targets[0]) == "self.obfuscate" and isinstance(a_.value, ast.Dict):
+            installed |= set(const_str(k) for k in a_.value.keys if k is not None)
+        if isinstance(a_, ast.Assign) and isinstance(a_.targets[0], ast.Subscript) and U(a_.targets[0].value) == "self.obfuscate" and const_str(a_.targets[0].slice):
+            installed.add(const_str(a_.targets[0].slice))
+    for x_ in find_calls(init_.body, attr="update"):
+        if U(x_.func.value) == "self.obfuscate":
+            installed |= set(k.arg for k in x_.keywords if k.arg)
+            for a0 in x_.args:
+                if isinstance(a0, ast.Dict):
+                    installed |= set(const_str(k) for k in a0.keys if k is not None)
+    installed.discard(None)
+    if names is None or not installed:
+        cx.unknown(cc, "cannot read DEFAULT_OBFUSCATIONS as a literal set / the stages Cleaner.__init__ installs")
+    else:
+        cx.require(installed <= names, dflt, "DEFAULT_OBFUSCATIONS names every stage Cleaner.__init__ can install (it is what 'every obfuscation excluded' is compared with)",
+                   construct="installed but not listed: %s" % sorted(installed - names) if installed - names else "DEFAULT_OBFUSCATIONS = %s" % sorted(names))
 
 
 def _site_text(n, fname, ctx, cleaner):
